@@ -63,12 +63,12 @@ def random_cases(n, seed):
                 steps.append(render.step(s, {"op": "use-db", "d": d, "u": "-",
                                              "tok": {"d": "tok", "e": "tok2"}[d] if rnd.random() < 0.85 else "bad"}))
             elif x < 0.85:
-                steps.append({"close": s, "op": {"op": "close"}})
+                steps.append({"close": s, "how": rnd.choice(["clean", "clean", "badline", "rst", "drop"]), "op": {"op": "close"}})
             else:
                 steps.append(render.step(s, {"op": "get", "k": "$connections"}))
         # the burst goes away: everything but the prefix sessions closes
         for s in ["s1", "s2", "s3", "s4"]:
-            steps.append({"close": s, "op": {"op": "close"}})
+            steps.append({"close": s, "how": rnd.choice(["clean", "badline", "rst", "drop"]), "op": {"op": "close"}})
         cases.append({"id": "r%d" % i, "steps": steps})
     return cases
 
